@@ -35,6 +35,19 @@ impl Lowerer<'_, '_> {
     /// This function also checks whether the value needs to be cloned in the
     /// first place and does a more efficient operation if not.
     pub fn call_clone_of(&mut self, to: Location, from: Location, ty: TyRef) {
+        // A zero-sized value has no storage, but cloning it can still be
+        // observable: a zero-sized registered type may implement `Clone`
+        // (and `Drop`) with side effects. Its clone function gets dangling
+        // pointers.
+        if self.layout_of(ty).is_some_and(|l| l.is_zero_sized()) {
+            if self.needs_clone(ty) {
+                let from = self.dangling_var(ty);
+                let to = self.dangling_var(ty);
+                self.call_clone_function(from, to, ty);
+            }
+            return;
+        }
+
         match (to, from) {
             // This is a not-by-reference type so we'll just assign it.
             (Location::Var(to), Location::Var(from)) => {
